@@ -21,8 +21,10 @@ def cands (sqrt : S → S) (a0 a1 a2 a3 : S) : Option (List S) :=
   if denom a0 a1 a2 a3 ≠ 0 then
     if delta a0 a1 a2 a3 ≥ 0 then
       let sq := sqrt (delta a0 a1 a2 a3)
-      let r1 := (tau a0 a1 a2 + sq) / denom a0 a1 a2 a3
-      let r2 := (tau a0 a1 a2 - sq) / denom a0 a1 a2 a3
+      -- the two roots of the derivative in the cancellation-free form the code uses
+      let q := if tau a0 a1 a2 ≥ 0 then tau a0 a1 a2 + sq else tau a0 a1 a2 - sq
+      let r1 := q / denom a0 a1 a2 a3
+      let r2 := if q ≠ 0 then (a0 - a1) / q else r1
       some ([0, 1] ++ (if 0 < r1 ∧ r1 < 1 then [r1] else []) ++ (if 0 < r2 ∧ r2 < 1 then [r2] else []))
     else some [0, 1]
   else none
